@@ -3,6 +3,8 @@
 package discovery
 
 import (
+	"github.com/dtn7/dtn7-go/pkg/bpv7"
+	"github.com/dtn7/dtn7-go/pkg/cla"
 	verif "github.com/dtn7/dtn7-go/pkg/zzverif"
 )
 
@@ -11,6 +13,23 @@ func H04_Announcements() {
 	n := verif.Param("n", 7)
 	in := verif.Bytes("in", n)
 	verif.InputLen(n)
+	verif.Observe("in", in)
+	_, _ = UnmarshalAnnouncements(in)
+	verif.Reach("end")
+}
+
+// H04_AnnouncementsWide: an otherwise valid beacon (two announcements) in which one array count or string length is
+// re-encoded as an arbitrary 64-bit value.
+func H04_AnnouncementsWide() {
+	enc, err := MarshalAnnouncements([]Announcement{
+		{Type: cla.MTCP, Endpoint: bpv7.MustNewEndpointID("dtn://a/"), Port: 35037},
+		{Type: cla.TCPCLv4, Endpoint: bpv7.MustNewEndpointID("ipn:23.42"), Port: 4556},
+	})
+	verif.Assume(err == nil)
+	hs := verif.CborHeaders(enc)
+	p := hs[verif.Choose("header", len(hs))]
+	in := verif.WidenHeader(enc, p, verif.Bytes("arg", 8))
+	verif.InputLen(len(in))
 	verif.Observe("in", in)
 	_, _ = UnmarshalAnnouncements(in)
 	verif.Reach("end")
